@@ -1187,8 +1187,10 @@ macro_rules! dev_int_case {
             let toi = $toi;
             let cj = |op: &str, what: String| J::obj(vec![("op", J::s(op)), ("ty", J::s(stringify!($t))), ("shape", J::us(&shape)), ("a", J::A(ai.iter().take(40).map(|x| J::I(*x as i128)).collect())), ("b", J::A(bi.iter().take(40).map(|x| J::I(*x as i128)).collect())), ("what", J::s(what))]);
             let diffs: Vec<i128> = ai.iter().zip(&bi).map(|(&x, &y)| x as i128 - y as i128).collect();
-            let sq: i128 = diffs.iter().map(|d| d * d).sum();
-            let l1: i128 = diffs.iter().map(|d| d.abs()).sum();
+            // (saturating: with values over half the range of a 64-bit type the exact sum of squares exceeds 128 bits;
+            // a saturated value is far above the type's maximum, which is all that is asked of it then)
+            let sq: i128 = diffs.iter().fold(0i128, |a, d| a.saturating_add(d.saturating_mul(*d)));
+            let l1: i128 = diffs.iter().fold(0i128, |a, d| a.saturating_add(d.abs()));
             let linf: i128 = diffs.iter().map(|d| d.abs()).max().unwrap_or(0);
             let eq = diffs.iter().filter(|d| **d == 0).count();
             acc.evals += 8;
